@@ -170,6 +170,7 @@ class Inliner:
         self.k = 0
         self.inlined: List[Tuple[str, str]] = []  # (caller, callee) for the evidence
         self.fi_of_node: Dict[int, FuncInfo] = {}
+        self._in_try = False
 
     # .. driver
     def run(self):
@@ -261,7 +262,7 @@ class Inliner:
         return callee, recv, closure
 
     # .. argument binding
-    def _bind(self, callee: FuncInfo, c: ast.Call, recv, outmap: Optional[Dict[str, str]] = None
+    def _bind(self, callee: FuncInfo, c: ast.Call, recv, outmap: Optional[Dict[str, str]] = None, dead_after: bool = False
               ) -> Tuple[List[ast.stmt], Dict[str, str], Dict[str, ast.AST]]:
         fn = callee.node
         a = fn.args
@@ -316,6 +317,11 @@ class Inliner:
                 continue  # parameter, argument and target are one variable
             if isinstance(e, ast.Name) and e.id in outmap.values() and p not in reassigned:
                 raise Unsupported("target is read through another parameter")
+            if dead_after and isinstance(e, ast.Name) and p in reassigned and e.id not in outmap.values() and \
+                    sum(isinstance(n, ast.Name) and n.id == e.id for _, x in args for n in ast.walk(x)) == 1:
+                # 'return helper(v)': the caller's v is dead after the call, the re-assigned parameter can live in it
+                mapping[p] = e.id
+                continue
             if isinstance(e, (ast.Name, ast.Constant)) and p not in reassigned:
                 subst[p] = e
                 mapping.pop(p, None)
@@ -353,9 +359,9 @@ class Inliner:
             return None
         return dict(zip(names, [x.id for x in tn]))
 
-    def _instantiate(self, callee: FuncInfo, c: ast.Call, recv, closure, outmap=None
+    def _instantiate(self, callee: FuncInfo, c: ast.Call, recv, closure, outmap=None, dead_after=False
                      ) -> Tuple[List[ast.stmt], List[ast.stmt]]:
-        binds, mapping, subst = self._bind(callee, c, recv, outmap)
+        binds, mapping, subst = self._bind(callee, c, recv, outmap, dead_after and not closure)
         body = [copy.deepcopy(s) for s in _body_wo_doc(callee.node)]
         rn = _Rename(mapping, subst)
         body = [rn.visit(s) for s in body]
@@ -370,7 +376,11 @@ class Inliner:
             if isinstance(s, ast.Return):
                 r = make(s)
                 return stmts[:i] + (r if isinstance(r, list) else [r])
+            if _never_falls_through(s):
+                stmts = stmts[:i + 1]  # nothing after a raise (or an if whose arms all raise) runs
             if not _contains(s, ast.Return):
+                if len(stmts) == i + 1:
+                    return stmts
                 continue
             if isinstance(s, ast.If):
                 rest = stmts[i + 1:]
@@ -417,9 +427,13 @@ class Inliner:
             if isinstance(s, (ast.FunctionDef, ast.AsyncFunctionDef, ast.ClassDef)):
                 out.append(s)
                 continue
+            was = self._in_try
+            if isinstance(s, ast.Try) or s.__class__.__name__ == "TryStar":
+                self._in_try = True
             for f, lst in list(_stmt_lists(s)):
                 new = self._block(fi, lst, nested, depth)
                 lst[:] = new
+            self._in_try = was
             out.extend(self._stmt(fi, s, nested, depth))
         return out
 
@@ -563,13 +577,14 @@ class Inliner:
         outmap = None
         if isinstance(s, (ast.Assign, ast.AnnAssign)) and is_whole and not gen:
             outmap = self._outmap(callee, s.targets if isinstance(s, ast.Assign) else [s.target])
+        dead_after = isinstance(s, ast.Return) and is_whole and not self._in_try
         try:
-            binds, body = self._instantiate(callee, call, recv, closure, outmap)
+            binds, body = self._instantiate(callee, call, recv, closure, outmap, dead_after)
         except Unsupported:
             if outmap is None:
                 raise
             outmap = None
-            binds, body = self._instantiate(callee, call, recv, closure)
+            binds, body = self._instantiate(callee, call, recv, closure, None, dead_after)
         line = call
         if gen:
             def mk_gen(r):
@@ -646,6 +661,14 @@ class Inliner:
         if len(stmts) >= 2 and terminates(stmts[:-1]):
             return stmts[:-1]
         return stmts
+
+
+def _never_falls_through(s: ast.stmt) -> bool:
+    if isinstance(s, ast.Raise):
+        return True
+    if isinstance(s, ast.If):
+        return bool(s.body) and bool(s.orelse) and _never_falls_through(s.body[-1]) and _never_falls_through(s.orelse[-1])
+    return False
 
 
 def _bool_typed(e: ast.AST) -> bool:
